@@ -215,7 +215,19 @@ func (g *G) URI(bare bool) string {
 		sb.WriteString("+" + g.Digits())
 		return sb.String()
 	}
-	if g.R.Chance(3, 4) {
+	if !bare && g.R.Chance(1, 12) {
+		// a user part that reads like a complete host[:port][;params][?headers] tail until the '@'
+		// arrives (the URI parser works speculatively and has to start over at the '@')
+		sb.WriteString(g.Host())
+		if g.R.Chance(2, 3) {
+			sb.WriteString(":" + g.R.Pick([]string{strconv.Itoa(g.R.Intn(65536)), strconv.Itoa(g.R.Intn(10)), "65535", "65536", "99999"}))
+		}
+		sb.WriteString(g.R.Pick([]string{";x", ";lr", ";p=1", "?h", "?h=v", ";x?h=v", "", ";"}) + g.alnum(0, 3))
+		if g.R.Chance(1, 4) {
+			sb.WriteString(":" + g.R.Pick([]string{g.alnum(1, 4), strconv.Itoa(g.R.Intn(100000))}))
+		}
+		sb.WriteString("@")
+	} else if g.R.Chance(3, 4) {
 		sb.WriteString(g.tok(1, 10))
 		if !bare && g.R.Chance(1, 10) {
 			// ';' and '?' before an '@' belong to the user part
